@@ -117,7 +117,9 @@ def main(run):
             if len(deny_cases) < run.size(30, 300) and rng.random() < 0.5:
                 c = C.make_case("d%d_%d" % (si, di), schema, doc, rng, options={"deprecation": "deny", "other_variant": rng.random() < 0.3, "skip_none": rng.random() < 0.5}, fmt=fmt, features=feats)
                 if len(deny_cases) % 3 == 2:
+                    c["options"]["skip_none"] = True
                     c["attr_focus"] = "deprecated"
+                    c["attr_mode"] = len(deny_cases) // 3
                     c["delivery"] = "derive"      # the strategy arrives through the derive attribute (items in a per-case order)
                     run.count("deny-derive-delivery")
                 vecs, stats = C.resp_vectors(c, rng, n_payloads=6, drop_deprecated=True)
